@@ -205,6 +205,7 @@ cLUMemInit(fact_t fact, void *work, int_t lwork, int m, int n, int_t annz,
     singlecomplex   *ucol;
     int_t    *usub, *xusub;
     int_t    nzlmax, nzumax, nzlumax;
+    int_t    top1_ptrs = 0; /* stack top after the pointer arrays (USER) */
     
     iword     = sizeof(int);
     dword     = sizeof(singlecomplex);
@@ -246,6 +247,11 @@ cLUMemInit(fact_t fact, void *work, int_t lwork, int m, int n, int_t annz,
 	    xlsub  = cuser_malloc((n+1) * iword, HEAD, Glu);
 	    xlusup = cuser_malloc((n+1) * iword, HEAD, Glu);
 	    xusub  = cuser_malloc((n+1) * iword, HEAD, Glu);
+	    if ( !xsup || !supno || !xlsub || !xlusup || !xusub ) {
+		/* work[] cannot even hold the pointer arrays */
+		return (cmemory_usage(nzlmax, nzumax, nzlumax, n) + n);
+	    }
+	    top1_ptrs = Glu->stack.top1;
 	}
 
 	lusup = (singlecomplex *) cexpand( &nzlumax, LUSUP, 0, 0, Glu );
@@ -261,8 +267,9 @@ cLUMemInit(fact_t fact, void *work, int_t lwork, int m, int n, int_t annz,
 		SUPERLU_FREE(lsub); 
 		SUPERLU_FREE(usub);
 	    } else {
-		cuser_free((nzlumax+nzumax)*dword+(nzlmax+nzumax)*iword,
-                            HEAD, Glu);
+		/* release whatever part of the four arrays was obtained,
+		   alignment padding included */
+		cuser_free(Glu->stack.top1 - top1_ptrs, HEAD, Glu);
 	    }
 	    nzlumax /= 2;
 	    nzumax /= 2;
